@@ -75,6 +75,15 @@ def _resolve(font, fmt, name):
 def execute(case):
     from vmc.drive import inproc
 
+    if case.get("after"):
+        # an earlier build in the same process (another tolerance, the donor alone): a build's result must not depend on it
+        first = dict(case, tol=case["after"], where="same")
+        g1, _ = scene_for(first)
+        try:
+            inproc.build_direct([(g.cps, g.svg()) for g in [type(g1[0])(g1[0].cps, g1[0].vb, g1[0].nodes[:1])]],
+                                {"color_format": case["fmt"], "reuse_tolerance": case["after"], "output_file": "x.ttf"})
+        except Exception as e:
+            return [bad("C19.build", f"first build of the sequence: {type(e).__name__}: {e}")]
     glyphs, (gi_d, li_d, gi_c, li_c) = scene_for(case)
     fmt = case["fmt"]
     over = {"color_format": fmt, "reuse_tolerance": case["tol"], "output_file": "x.ttf"}
@@ -150,6 +159,9 @@ def cases(tier):
         for w in WHERE:
             for fmt in FMTS:
                 out.append({"outline": o, "t": [30, 20], "rot": 30, "mirror": "none", "vb": 100, "where": w, "tol": -1, "fmt": fmt})
+                # sequences of two builds in one process with different tolerances
+                out.append({"outline": o, "t": [30, 20], "rot": 30, "mirror": "none", "vb": 100, "where": w, "tol": 0.5, "fmt": fmt, "after": 0.1})
+                out.append({"outline": o, "t": [30, 20], "rot": 30, "mirror": "none", "vb": 100, "where": w, "tol": 0.1, "fmt": fmt, "after": 0.5})
     return out
 
 
